@@ -269,3 +269,142 @@ func VerifC11_RefCodecAny() {
 	verif.Assert(verif.BytesEq(back, b), "encode(decode(b)) == b for canonical b")
 	verif.Reached("end")
 }
+
+// every integer encoding (any head width, shortest or not) decodes to its
+// mathematical value or is rejected - never to another value
+func vDecodeIntHead[T vInteger](kind string, lo, hi int64, unsignedMax uint64) {
+	verif.NoPanic()
+	verif.Bound("C11 decode "+kind, "major type 0 or 1 with a 0/1/2/4/8-byte argument of any value (shortest form or not) decoded into "+kind)
+	neg := verif.Bool("negative")
+	var arg uint64
+	var enc []byte
+	maj := byte(0)
+	if neg {
+		maj = 0x20
+	}
+	switch verif.Choose("width", 5) {
+	case 0:
+		a := verif.U8("a0")
+		verif.Assume(a < 24)
+		arg, enc = uint64(a), []byte{maj | a}
+	case 1:
+		a := verif.U8("a1")
+		arg, enc = uint64(a), []byte{maj | 24, a}
+	case 2:
+		a := verif.U16("a2")
+		arg, enc = uint64(a), []byte{maj | 25, byte(a >> 8), byte(a)}
+	case 3:
+		a := verif.U32("a4")
+		arg, enc = uint64(a), []byte{maj | 26, byte(a >> 24), byte(a >> 16), byte(a >> 8), byte(a)}
+	default:
+		a := verif.U64("a8")
+		arg, enc = a, []byte{maj | 27, byte(a >> 56), byte(a >> 48), byte(a >> 40), byte(a >> 32), byte(a >> 24), byte(a >> 16), byte(a >> 8), byte(a)}
+	}
+	var v T
+	err := Unmarshal(enc, &v)
+	if err != nil {
+		verif.Reached("rejected")
+		return
+	}
+	if neg {
+		// value = -1 - arg must be representable
+		verif.Assert(arg <= uint64(-(lo + 1)), "an accepted negative integer is within the target's range (not wrapped)")
+		verif.Assert(lo < 0, "unsigned targets reject negative integers")
+		verif.Assert(int64(v) == -1-int64(arg), "a negative integer decodes to -1 - argument")
+	} else {
+		if unsignedMax != 0 {
+			verif.Assert(arg <= unsignedMax, "an accepted unsigned integer is within the target's range")
+			verif.Assert(uint64(v) == arg, "an unsigned integer decodes to its argument")
+		} else {
+			verif.Assert(arg <= uint64(hi), "an accepted non-negative integer is within the target's range")
+			verif.Assert(int64(v) == int64(arg), "a non-negative integer decodes to its argument")
+		}
+	}
+	verif.Reached("accepted")
+}
+
+func VerifC11_DecodeHead_int8()   { vDecodeIntHead[int8]("int8", -128, 127, 0) }
+func VerifC11_DecodeHead_int16()  { vDecodeIntHead[int16]("int16", -32768, 32767, 0) }
+func VerifC11_DecodeHead_int32()  { vDecodeIntHead[int32]("int32", -2147483648, 2147483647, 0) }
+func VerifC11_DecodeHead_int64()  { vDecodeIntHead[int64]("int64", -9223372036854775808, 9223372036854775807, 0) }
+func VerifC11_DecodeHead_uint8()  { vDecodeIntHead[uint8]("uint8", 0, 0, 255) }
+func VerifC11_DecodeHead_uint16() { vDecodeIntHead[uint16]("uint16", 0, 0, 65535) }
+func VerifC11_DecodeHead_uint32() { vDecodeIntHead[uint32]("uint32", 0, 0, 4294967295) }
+func VerifC11_DecodeHead_uint64() { vDecodeIntHead[uint64]("uint64", 0, 0, 18446744073709551615) }
+
+// into any: integers decode to int64 (documented), never to a wrapped value
+func VerifC11_DecodeHead_any() {
+	verif.NoPanic()
+	verif.Bound("C11 decode any", "major type 0 or 1 with an 8-byte argument of any value decoded into any")
+	neg := verif.Bool("negative")
+	a := verif.U64("a8")
+	maj := byte(0x1b)
+	if neg {
+		maj = 0x3b
+	}
+	enc := []byte{maj, byte(a >> 56), byte(a >> 48), byte(a >> 40), byte(a >> 32), byte(a >> 24), byte(a >> 16), byte(a >> 8), byte(a)}
+	var x any
+	if Unmarshal(enc, &x) != nil {
+		verif.Reached("rejected")
+		return
+	}
+	i, ok := x.(int64)
+	verif.Assert(ok, "an integer decodes into any as int64")
+	verif.Assert(a <= 1<<63-1, "an integer outside the int64 range is rejected, not wrapped")
+	if neg {
+		verif.Assert(i == -1-int64(a), "negative value")
+	} else {
+		verif.Assert(i == int64(a), "non-negative value")
+	}
+	verif.Reached("accepted")
+}
+
+type VL3C11 struct {
+	P uint8
+	Q uint8
+}
+type VL2C11 struct {
+	VL3C11
+	R uint8
+}
+type VL1C11 struct {
+	VL2C11
+	S uint8
+}
+type vDeep struct {
+	A uint8
+	VL1C11
+	Z uint8
+}
+type vDeepPtr struct {
+	A uint8
+	*VL1C11
+	Z uint8
+}
+
+// embedded structs nested three levels deep (by value and through a pointer)
+func VerifC11_DeepEmbedding() {
+	verif.NoPanic()
+	verif.Bound("C11g deep", "struct with an embedded struct nested 3 levels (innermost with 2 fields), by value or through a pointer; all leaves symbolic")
+	in := VL1C11{VL2C11{VL3C11{verif.U8("p"), verif.U8("q")}, verif.U8("r")}, verif.U8("s")}
+	a, z := verif.U8("a"), verif.U8("z")
+	want := []byte{0x86}
+	for _, b := range []uint8{a, in.P, in.Q, in.R, in.S, z} {
+		e, _ := Marshal(b)
+		want = append(want, e...)
+	}
+	if verif.Choose("ptr", 2) == 0 {
+		v := vDeep{A: a, VL1C11: in, Z: z}
+		enc, err := Marshal(v)
+		verif.Assert(err == nil && verif.BytesEq(enc, want), "fields of nested embedded structs are encoded once each, in declaration order")
+		var w vDeep
+		verif.Assert(Unmarshal(enc, &w) == nil && w == v, "decode(encode(v)) == v for nested embedding")
+	} else {
+		v := vDeepPtr{A: a, VL1C11: &in, Z: z}
+		enc, err := Marshal(v)
+		verif.Assert(err == nil && verif.BytesEq(enc, want), "fields reached through an embedded pointer are encoded once each, in declaration order")
+		var w vDeepPtr
+		verif.Assert(Unmarshal(enc, &w) == nil && w.VL1C11 != nil && *w.VL1C11 == in && w.A == a && w.Z == z, "decode(encode(v)) == v for nested embedding through a pointer")
+	}
+	verif.Reached("end")
+}
